@@ -4,7 +4,7 @@
   liveness event of another rollapp never touches the bond of this rollapp's proposer.
 -/
 import DymVerif.Lemmas.CoreLevExact
-namespace DymVerif.Core
+namespace DymVerif.Core.LevNs
 
 /-- proposer and successor of every rollapp have a sequencer record naming that rollapp -/
 def Own (s : St) : Prop :=
@@ -813,4 +813,4 @@ theorem run_uniq (p : Params) (ops : List Op) {ra : Nat} {r : Rollapp} {a : Addr
     (hg : getRa (run p ops) ra = some r) (hp : r.proposer = some a) : Uniq (run p ops) a ra :=
   (run_own p ops).uniq hg hp
 
-end DymVerif.Core
+end DymVerif.Core.LevNs
